@@ -24,7 +24,11 @@ use crate::world::{guarded, World, WorldCfg};
 pub const PARENT: &str = "p";
 pub const CHILDREN: [&str; 2] = ["c1", "c2"];
 pub const PUBLISHERS: [&str; 2] = ["pub1", "pub2"];
-pub const N_IDS: usize = 5;
+/// a second CA of the same instance that has children of the same names (registered with other identity keys):
+/// a request addressed to it in the message, but delivered to `p`, must not be acted upon by it
+pub const OTHER_PARENT: &str = "q";
+pub const OTHER_CHILD_RES: [(&str, &str); 2] = [("AS64601-AS64610", "11.0.0.0/12"), ("AS64620-AS64630", "11.16.0.0/12")];
+pub const N_IDS: usize = 7;
 pub const N_CAKEYS: usize = 4;
 
 pub const CHILD_RES: [(&str, &str); 2] = [("AS64496-AS64500", "10.0.0.0/12, 10.32.0.0/12"), ("AS64510-AS64520", "10.64.0.0/12, 10.16.0.0/12")];
@@ -60,6 +64,8 @@ pub struct Observed {
     /// publisher -> (id key, files uri -> sha256)
     pub publishers: BTreeMap<String, (String, BTreeMap<String, String>)>,
     pub repo_version: u64,
+    /// the other CA `q`: version and its children as above
+    pub other_ca: (u64, BTreeMap<String, (String, String, Vec<String>)>),
 }
 
 impl SigWorld {
@@ -81,6 +87,14 @@ impl SigWorld {
             Ok(Err(e)) => return Err(Fail::Harness(format!("setup does not settle: {e}"))),
             Err(c) => return Err(Fail::Crash(c.what)),
         }
+        w.add_ca(OTHER_PARENT).map_err(h)?;
+        let other = ResourceSet::from_strs("AS64601-AS64700", "11.0.0.0/8", "").map_err(h)?;
+        w.attach(OTHER_PARENT, "ta", &other).map_err(h)?;
+        match w.pump_quiesce(3000) {
+            Ok(Ok(_)) => {}
+            Ok(Err(e)) => return Err(Fail::Harness(format!("setup does not settle: {e}"))),
+            Err(c) => return Err(Fail::Crash(c.what)),
+        }
         let signer = w.rt.signer();
         for _ in 0..N_IDS {
             let cert = signer.create_self_signed_id_cert().map_err(h)?;
@@ -96,6 +110,11 @@ impl SigWorld {
             self.w.cam().ca_add_child(&CaHandle::from_str(PARENT).unwrap(), req, &self.w.actor, &self.w.rt).map_err(h)?;
             self.child_id.insert(c.to_string(), i);
             self.child_res.insert(c.to_string(), res);
+        }
+        for (i, c) in CHILDREN.iter().enumerate() {
+            let res = ResourceSet::from_strs(OTHER_CHILD_RES[i].0, OTHER_CHILD_RES[i].1, "").map_err(h)?;
+            let req = AddChildRequest { handle: ChildHandle::from_str(c).unwrap(), resources: res, id_cert: self.ids[5 + i].cert.clone() };
+            self.w.cam().ca_add_child(&CaHandle::from_str(OTHER_PARENT).unwrap(), req, &self.w.actor, &self.w.rt).map_err(h)?;
         }
         for (i, p) in PUBLISHERS.iter().enumerate() {
             let id = 2 + i;
@@ -128,14 +147,15 @@ impl SigWorld {
         format!("rsync://krill.example.org/repo/{publisher}/")
     }
 
-    pub fn observe(&self) -> Result<Observed, Fail> {
+    fn children_of(&self, ca_name: &str) -> Result<(u64, String, BTreeMap<String, (String, String, Vec<String>)>), Fail> {
         use krill::commons::eventsourcing::Aggregate;
-        let ca = self.parent()?;
+        let handle = CaHandle::from_str(ca_name).unwrap();
+        let ca = self.w.cam().get_ca(&handle).map_err(h)?;
         let mut children = BTreeMap::new();
         for c in CHILDREN {
             let ch = ChildHandle::from_str(c).unwrap();
             if let Ok(info) = ca.get_child(&ch) {
-                let details = self.w.cam().ca_show_child(&CaHandle::from_str(PARENT).unwrap(), &ch).map_err(h)?;
+                let details = self.w.cam().ca_show_child(&handle, &ch).map_err(h)?;
                 let v = serde_json::to_value(&details).map_err(h)?;
                 let res = v.get("entitled_resources").map(|x| x.to_string()).unwrap_or_default();
                 // the keys the parent has on record for the child, with their state
@@ -143,12 +163,14 @@ impl SigWorld {
                     .ok()
                     .and_then(|v| v.as_object().map(|m| m.iter().map(|(k, st)| format!("{k}={st}")).collect()))
                     .unwrap_or_default();
-                // and the certificates it publishes for them
+                // and the certificates it has issued for them (serial included: a re-issue shows)
                 for (rcn, rc) in serde_json::to_value(&*ca).ok().and_then(|v| v.get("resources").cloned()).and_then(|r| r.as_object().cloned()).unwrap_or_default() {
-                    if let Some(certs) = rc.get("certificates").and_then(|c| c.get("inner").or(Some(c))).and_then(|c| c.as_object()) {
-                        for k in certs.keys() {
-                            if info.used_keys.keys().any(|u| u.to_string() == *k) {
-                                keys.push(format!("cert:{rcn}:{k}"));
+                    for part in ["issued", "inner", "suspended"] {
+                        if let Some(certs) = rc.get("certificates").and_then(|c| c.get(part)).and_then(|c| c.as_object()) {
+                            for (k, cert) in certs {
+                                if info.used_keys.keys().any(|u| u.to_string() == *k) {
+                                    keys.push(format!("cert:{rcn}:{part}:{k}:{}", cert.get("serial").map(|s| s.to_string()).unwrap_or_default()));
+                                }
                             }
                         }
                     }
@@ -158,6 +180,12 @@ impl SigWorld {
                 children.insert(c.to_string(), (info.id_cert.public_key.key_identifier().to_string(), res, keys));
             }
         }
+        Ok((ca.version(), ca.id_cert().public_key.key_identifier().to_string(), children))
+    }
+
+    pub fn observe(&self) -> Result<Observed, Fail> {
+        let (parent_version, parent_id_key, children) = self.children_of(PARENT)?;
+        let (other_version, _, other_children) = self.children_of(OTHER_PARENT)?;
         let mut publishers = BTreeMap::new();
         for p in self.w.publishers() {
             if let Ok(d) = self.w.repo().get_publisher_details(PublisherHandle::from_str(&p).unwrap()) {
@@ -169,13 +197,7 @@ impl SigWorld {
                 publishers.insert(p.clone(), (d.id_cert.public_key.key_identifier().to_string(), files));
             }
         }
-        Ok(Observed {
-            parent_version: ca.version(),
-            parent_id_key: ca.id_cert().public_key.key_identifier().to_string(),
-            children,
-            publishers,
-            repo_version: 0,
-        })
+        Ok(Observed { parent_version, parent_id_key, children, publishers, repo_version: 0, other_ca: (other_version, other_children) })
     }
 
     //--- building messages
